@@ -10,13 +10,29 @@
 //   tree  := "{" item* "}"
 //   item  := "L" id re meth kind            handler        (kind: h0 | hN:<sel,…> | rh | g | g:<grp>:<hex>)
 //          | "U" keyhex tplhex               url_mapper::assign(key,tpl)   (key "-" : assign(tpl))
+//          | "W"                              this application calls mapper().map() now, i.e. before it is mounted
 //          | "C" re sel name tplhex tree     child: dispatcher().mount(re,child,sel) if re!="_",
 //                                                   mapper().mount(name,tpl,child) if name!="_"
 //   re    := "_" | "r"hex | "i"hex (icase)
 #include "common.h"
 #include <cppcms/service.h>
 #include <cppcms/application.h>
+#include <memory>
+#include <string>
+#include <list>
+#include <booster/shared_ptr.h>
+#include <booster/intrusive_ptr.h>
+#include <booster/enable_shared_from_this.h>
+#include <booster/hold_ptr.h>
+#include <booster/noncopyable.h>
+#include <cppcms/defs.h>
+#include <cppcms/application.h>
+// application_specific_pool::get(service&) is what http::context uses to obtain the application of the pool returned
+// by applications_pool::get_application_specific_pool; it is private (context is a friend).  The harness needs it to
+// see WHICH classic asynchronous application a request was given to, so the access specifier is lifted for this one header.
+#define private public
 #include <cppcms/applications_pool.h>
+#undef private
 #include <cppcms/url_dispatcher.h>
 #include <cppcms/url_mapper.h>
 #include <cppcms/mount_point.h>
@@ -86,6 +102,10 @@ static bool parse_node(words_t const &w,size_t &i,node_spec &n)
 			else return false;
 			i+=5;
 		}
+		else if(w[i]=="W") {
+			it.type='W';
+			i+=1;
+		}
 		else if(w[i]=="U") {
 			if(i+2>=w.size()) return false;
 			it.type='U';
@@ -134,6 +154,11 @@ public:
 		for(size_t k=0;k<n.items.size();k++) {
 			item_spec const &it=n.items[k];
 			if(it.type=='L') add_leaf(it);
+			else if(it.type=='W') {
+				// generate a URL now, while this application is not mounted anywhere yet (whatever comes out)
+				std::ostringstream ss;
+				try { mapper().map(ss,""); } catch(cppcms::cppcms_error const &) {}
+			}
 			else if(it.type=='U') {
 				if(it.key.empty()) mapper().assign(it.tpl); else mapper().assign(it.key,it.tpl);
 			}
@@ -404,17 +429,33 @@ static std::string run_MP(std::vector<words_t> const &s)
 	catch(booster::regex_error const &) { return "cfg-error"; }
 }
 
-// P <methhex> <hosthex> <scripthex> <pathhex> <k> | mp1 tree1 | mp2 tree2 … | oracle
+static cppcms::json::value service_config()
+{
+	cppcms::json::value cfg;
+	cfg["service"]["api"]="scgi";
+	cfg["service"]["socket"]="c20-unused.sock"; // never opened: the service is not run
+	cfg["misc"]["invalid_url_throws"]=true;
+	cfg["http"]["script"]="/s";
+	return cfg;
+}
+
+// P <methhex> <hosthex> <scripthex> <pathhex> <k> <rounds> | <S|A> mp1 tree1 | <S|A> mp2 tree2 … | oracle
+//   S: applications_pool::mount(create_pool<app>(tree),mp,flags)            -> list `apps`
+//   A: applications_pool::mount(booster::intrusive_ptr<application>,mp)     -> list `legacy_async_apps`
+//   rounds: that many times first: route the request and, if a classic asynchronous application got it, let it die
 static std::string run_P(std::vector<words_t> const &s)
 {
-	if(s[0].size()!=6) return "bad-op";
+	if(s[0].size()!=7) return "bad-op";
 	std::string meth,h,sc,p;
 	if(!unhex(s[0][1],meth)||!unhex(s[0][2],h)||!unhex(s[0][3],sc)||!unhex(s[0][4],p)) return "bad-op";
 	size_t k=atoi(s[0][5].c_str());
+	size_t rounds=atoi(s[0][6].c_str());
 	if(s.size()<k+1) return "bad-op";
-	std::vector<mp_spec> mps(k); std::vector<node_spec> trees(k);
+	std::vector<mp_spec> mps(k); std::vector<node_spec> trees(k); std::vector<bool> legacy(k);
 	for(size_t j=0;j<k;j++) {
-		size_t i=0;
+		size_t i=1;
+		if(s[1+j].empty() || (s[1+j][0]!="S" && s[1+j][0]!="A")) return "bad-op";
+		legacy[j]=(s[1+j][0]=="A");
 		if(!parse_mp(s[1+j],i,mps[j]) || !parse_node(s[1+j],i,trees[j]) || i!=s[1+j].size()) return "bad-op";
 	}
 	if(g_oracle) {
@@ -423,37 +464,54 @@ static std::string run_P(std::vector<words_t> const &s)
 		std::set<std::string> subj; subj.insert(meth); subj.insert(cstr_of(h)); subj.insert(cstr_of(sc)); subj.insert(cstr_of(p));
 		return oracle_words(ps,subj);
 	}
-	std::vector<booster::shared_ptr<cppcms::application_specific_pool> > pools;
+	// classic asynchronous mounts cannot be unmounted: every case gets its own service
+	cppcms::service srv(service_config());
+	cppcms::service *saved=g_srv; g_srv=&srv;
 	std::string res;
-	try {
-		for(size_t j=0;j<k;j++) {
-			// the constructor argument is copied into the pool; applications are built on demand
-			pools.push_back(cppcms::create_pool<app>(trees[j]));
-			g_srv->applications_pool().mount(pools.back(),mk_mp(mps[j]),cppcms::app::asynchronous);
-		}
-		std::string matched;
-		booster::shared_ptr<cppcms::application_specific_pool> got=
-			g_srv->applications_pool().get_application_specific_pool(h.c_str(),sc.c_str(),p.c_str(),matched);
-		if(!got) res="none";
-		else {
-			size_t idx=k;
-			for(size_t j=0;j<k;j++) if(pools[j]==got) idx=j;
-			g_log.clear();
-			// (application_specific_pool::get is private; an asynchronous pool hands its application out publicly)
-			booster::intrusive_ptr<cppcms::application> a=got->asynchronous_application_by_io_service(g_srv->get_io_service(),*g_srv);
-			if(!a) res="no-app";
-			else {
+	{
+		std::vector<booster::shared_ptr<cppcms::application_specific_pool> > pools(k);
+		std::vector<booster::intrusive_ptr<app> > apps(k);
+		try {
+			for(size_t j=0;j<k;j++) {
+				if(legacy[j]) {
+					apps[j]=new app(srv,trees[j]);
+					srv.applications_pool().mount(booster::intrusive_ptr<cppcms::application>(apps[j]),mk_mp(mps[j]));
+				}
+				else {
+					// the constructor argument is copied into the pool; applications are built on demand
+					pools[j]=cppcms::create_pool<app>(trees[j]);
+					srv.applications_pool().mount(pools[j],mk_mp(mps[j]),cppcms::app::asynchronous);
+				}
+			}
+			for(size_t round=0;;round++) {
+				std::string matched;
+				booster::shared_ptr<cppcms::application_specific_pool> got=
+					srv.applications_pool().get_application_specific_pool(h.c_str(),sc.c_str(),p.c_str(),matched);
+				if(!got) { res="none"; break; }
+				booster::intrusive_ptr<cppcms::application> a=got->get(srv); // as http::context does
+				if(!a) { res="no-app"; break; }
+				size_t idx=k;
+				for(size_t j=0;j<k;j++) if((pools[j] && pools[j]==got) || (apps[j] && apps[j].get()==a.get())) idx=j;
+				if(idx==k) { res="unknown-pool"; break; }
+				if(round<rounds && legacy[idx]) {
+					// the application dies: its pool gets flags()==-1 and is purged by the next scan
+					a=0; apps[idx]=0;
+					continue;
+				}
+				g_log.clear();
 				booster::shared_ptr<cppcms::http::context> ctx=make_context(meth,cstr_of(h),cstr_of(sc),cstr_of(p));
 				a->assign_context(ctx);
 				a->main(matched);
 				if(ctx->response().get_header("Status").compare(0,3,"404")==0) g_log.push_back("NF");
 				a->release_context();
 				res=itos(idx)+" "+hex(matched)+" "+join_log();
+				break;
 			}
 		}
+		catch(booster::regex_error const &) { res="cfg-error"; }
+		for(size_t j=0;j<k;j++) if(pools[j]) srv.applications_pool().unmount(pools[j]);
 	}
-	catch(booster::regex_error const &) { res="cfg-error"; }
-	for(size_t j=0;j<pools.size();j++) g_srv->applications_pool().unmount(pools[j]);
+	g_srv=saved;
 	return res;
 }
 
@@ -578,12 +636,7 @@ static std::string run_kind(words_t const &w,std::vector<words_t> const &s)
 int main(int argc,char **argv)
 {
 	g_oracle = argc>1 && std::string(argv[1])=="oracle";
-	cppcms::json::value cfg;
-	cfg["service"]["api"]="scgi";
-	cfg["service"]["socket"]="c20-unused.sock"; // never opened: the service is not run
-	cfg["misc"]["invalid_url_throws"]=true;
-	cfg["http"]["script"]="/s";
-	cppcms::service srv(cfg);
+	cppcms::service srv(service_config());
 	g_srv=&srv;
 	return vh::drive(run);
 }
